@@ -163,6 +163,23 @@ func runHist(c HistCase) []ev.Violation {
 	for i := range status {
 		status[i], up[i] = domain.StatusHealthy, true
 	}
+	// Health checks the harness did not ask for (the production scheduler's 30 s ticker can pick an
+	// endpoint up in the instant between its installation and the first scripted status) write
+	// statuses the reference model knows nothing about. They are visible as health requests at the
+	// backends: a case in which one happened is not judged.
+	hits0 := make([]int64, c.N)
+	own := make([]int64, c.N)
+	for i := 0; i < c.N; i++ {
+		hits0[i] = r.Raw[i].HealthHits()
+	}
+	foreignCheck := func() bool {
+		for i := 0; i < c.N; i++ {
+			if r.Raw[i].HealthHits()-hits0[i]-own[i] > 0 {
+				return true
+			}
+		}
+		return false
+	}
 	var trace []string
 	hadTransition, ntKey := false, false
 	sync := func() { // adopt the repository's view
@@ -251,9 +268,16 @@ func runHist(c HistCase) []ev.Violation {
 			}
 			sync()
 		case "healthcheck":
+			hb := make([]int64, c.N)
+			for i := 0; i < c.N; i++ {
+				hb[i] = r.Raw[i].HealthHits()
+			}
 			if err := r.S.Health.RunHealthCheck(context.Background(), false); err != nil {
 				rec.Inconclusive("healthcheck: " + err.Error())
 				return nil
+			}
+			for i := 0; i < c.N; i++ {
+				own[i] += r.Raw[i].HealthHits() - hb[i]
 			}
 			st := r.S.Statuses()
 			for i := range status {
@@ -283,6 +307,10 @@ func runHist(c HistCase) []ev.Violation {
 			trace = append(trace, fmt.Sprintf("healthcheck->%v", status))
 		}
 		if len(vs) > 0 {
+			if foreignCheck() {
+				rec.Class("history/skipped:scheduler-health-check-during-case")
+				return nil
+			}
 			return vs
 		}
 	}
@@ -346,6 +374,10 @@ func runConc(c ConcCase) []ev.Violation {
 	if err != nil {
 		rec.Inconclusive("setup: " + err.Error())
 		return nil
+	}
+	hits0 := make([]int64, c.N)
+	for i := 0; i < c.N; i++ {
+		hits0[i] = r.Raw[i].HealthHits()
 	}
 	writes := make([][]wlog, c.N)
 	for i := range writes {
@@ -445,6 +477,16 @@ func runConc(c ConcCase) []ev.Violation {
 	}
 	if servedN > 0 {
 		rec.NT(fmt.Sprintf("conc|%+v", c))
+	}
+	if len(vs) > 0 {
+		// nobody in this sub-check asks for health checks: one that happened anyway (the production
+		// scheduler) wrote a status the writers' logs do not contain
+		for i := 0; i < c.N; i++ {
+			if r.Raw[i].HealthHits() != hits0[i] {
+				rec.Class("concurrent/skipped:scheduler-health-check-during-case")
+				return nil
+			}
+		}
 	}
 	return vs
 }
